@@ -1,6 +1,8 @@
 package core
 
 import (
+	"go/token"
+	"go/types"
 	"regexp"
 	"sort"
 	"strings"
@@ -17,11 +19,92 @@ type EdgeKey struct {
 type Cut struct {
 	Edges  map[EdgeKey]bool
 	Instrs map[ssa.Instruction]bool
+	// Via: for a boolean join block (see boolJoin) the edge J→Succ is cut only for flow that entered J from predecessor #Pred
+	Via map[ViaKey]bool
 	// bookkeeping for evidence / explain
 	EdgeLits []string
 }
 
-func newCut() *Cut { return &Cut{Edges: map[EdgeKey]bool{}, Instrs: map[ssa.Instruction]bool{}} }
+type ViaKey struct {
+	J    *ssa.BasicBlock
+	Pred int
+	Succ int
+}
+
+func newCut() *Cut {
+	return &Cut{Edges: map[EdgeKey]bool{}, Instrs: map[ssa.Instruction]bool{}, Via: map[ViaKey]bool{}}
+}
+
+// boolJoin recognises the block the SSA builder produces for a materialised boolean (`x := a || b; if x {…}`, or a bool
+// temporary): only phis followed by an If on one of them. Such a block is read per predecessor: a constant operand decides
+// the branch, any other operand is the condition tested on that path. This makes `if a || b` and `x := a || b; if x`
+// the same flow graph.
+func boolJoin(b *ssa.BasicBlock) *ssa.Phi {
+	n := len(b.Instrs)
+	if n < 2 || len(b.Succs) != 2 || len(b.Preds) < 2 {
+		return nil
+	}
+	ifi, ok := b.Instrs[n-1].(*ssa.If)
+	if !ok {
+		return nil
+	}
+	phi, ok := ifi.Cond.(*ssa.Phi)
+	if !ok || phi.Block() != b {
+		return nil
+	}
+	for _, in := range b.Instrs[:n-1] {
+		if _, isPhi := in.(*ssa.Phi); !isPhi {
+			return nil
+		}
+	}
+	for _, p := range b.Preds {
+		if p.Index >= b.Index && p != b {
+			// a back edge: loop-carried flag, not a materialised condition
+			for _, e := range phi.Edges {
+				if e == ssa.Value(phi) {
+					return nil
+				}
+			}
+		}
+	}
+	for _, e := range phi.Edges {
+		if q, isPhi := e.(*ssa.Phi); isPhi && q == phi {
+			return nil
+		}
+	}
+	return phi
+}
+
+func predIndex(b, pred *ssa.BasicBlock) int {
+	for i, p := range b.Preds {
+		if p == pred {
+			return i
+		}
+	}
+	return -1
+}
+
+// joinSuccs lists the successor indices of boolean join j that flow entering from pred can take under cut c.
+func joinSuccs(j *ssa.BasicBlock, phi *ssa.Phi, pred *ssa.BasicBlock, c *Cut) []int {
+	k := predIndex(j, pred)
+	var out []int
+	for i := 0; i < 2; i++ {
+		if c != nil && c.Edges[EdgeKey{j, i}] {
+			continue
+		}
+		if k >= 0 {
+			if v, isBool := boolConst(phi.Edges[k]); isBool && v != (i == 0) {
+				continue
+			}
+			if c != nil && c.Via[ViaKey{j, k, i}] {
+				continue
+			}
+		}
+		out = append(out, i)
+	}
+	return out
+}
+
 
 // BlockLits returns the literals holding on the true/false successor edges of a block ending in If.
 func (w *World) BlockLits(b *ssa.BasicBlock) (t, f Lit, ok bool) {
@@ -49,9 +132,12 @@ func (w *World) GateCut(fn *ssa.Function, g Gate) *Cut {
 				}
 				s := w.RenderInstr(in)
 				for _, re := range g.Instrs {
-					if re.MatchString(s) {
+					if MatchRe(re, s) {
 						c.Instrs[in] = true
 					}
+				}
+				if !c.Instrs[in] && w.calleeContains(fn, in, g.Instrs, true) {
+					c.Instrs[in] = true
 				}
 			}
 		}
@@ -69,8 +155,157 @@ func (w *World) GateCut(fn *ssa.Function, g Gate) *Cut {
 				c.EdgeLits = append(c.EdgeLits, f.String()+" @"+w.InstrPos(b.Instrs[len(b.Instrs)-1]))
 			}
 		}
+		// a materialised boolean: the condition tested on the path from each predecessor is that predecessor's operand
+		if phi := boolJoin(b); phi != nil && len(g.Lits) > 0 {
+			for k, e := range phi.Edges {
+				if _, isConst := e.(*ssa.Const); isConst {
+					continue
+				}
+				lt, lf := w.NormLit(e, true), w.NormLit(e, false)
+				for _, p := range g.Lits {
+					if p.Match(lt) {
+						c.Via[ViaKey{b, k, 0}] = true
+						c.EdgeLits = append(c.EdgeLits, lt.String()+" (operand) @"+w.InstrPos(b.Instrs[len(b.Instrs)-1]))
+					}
+					if p.Match(lf) {
+						c.Via[ViaKey{b, k, 1}] = true
+						c.EdgeLits = append(c.EdgeLits, lf.String()+" (operand) @"+w.InstrPos(b.Instrs[len(b.Instrs)-1]))
+					}
+				}
+			}
+		}
+		// second reading of the condition: small extracted helpers rendered as what they return
+		if !c.Edges[EdgeKey{b, 0}] && !c.Edges[EdgeKey{b, 1}] && len(g.Lits) > 0 && !w.inlineTrivial {
+			ifi := b.Instrs[len(b.Instrs)-1].(*ssa.If)
+			w.inlineTrivial = true
+			t2, f2 := w.NormLit(ifi.Cond, true), w.NormLit(ifi.Cond, false)
+			w.inlineTrivial = false
+			if t2.Expr != t.Expr {
+				for _, p := range g.Lits {
+					if p.Match(t2) {
+						c.Edges[EdgeKey{b, 0}] = true
+						c.EdgeLits = append(c.EdgeLits, t2.String()+" (inlined) @"+w.InstrPos(ifi))
+					}
+					if p.Match(f2) {
+						c.Edges[EdgeKey{b, 1}] = true
+						c.EdgeLits = append(c.EdgeLits, f2.String()+" (inlined) @"+w.InstrPos(ifi))
+					}
+				}
+			}
+		}
+		// see through a helper: the branch tests the result of a karpenter function that itself only produces that
+		// outcome after passing the gate (the check was extracted into a helper)
+		if !c.Edges[EdgeKey{b, 0}] && !c.Edges[EdgeKey{b, 1}] && w.seeDepth < maxSeeDepth {
+			ifi := b.Instrs[len(b.Instrs)-1].(*ssa.If)
+			if call, idx, wantT, wantF, ok := condCallOutcome(ifi.Cond); ok {
+				for e, want := range []string{wantT, wantF} {
+					if w.calleeEstablishes(fn, call, idx, want, g) {
+						c.Edges[EdgeKey{b, e}] = true
+						c.EdgeLits = append(c.EdgeLits, "(via "+w.CalleeName(call.Common())+" ⇒ "+want+") @"+w.InstrPos(ifi))
+					}
+				}
+			}
+		}
 	}
 	return c
+}
+
+const maxSeeDepth = 2
+
+// condCallOutcome decomposes a branch condition that tests the result of a call: c, !c, c == nil, c != nil, where c is a
+// call or one component of a call's tuple. It returns the call, the result index (-1: last/only), and the outcome the
+// callee must have produced on the true and on the false edge.
+func condCallOutcome(cond ssa.Value) (call *ssa.Call, idx int, wantT, wantF string, ok bool) {
+	flip := false
+	for {
+		u, isNot := cond.(*ssa.UnOp)
+		if !isNot || u.Op != token.NOT {
+			break
+		}
+		flip = !flip
+		cond = u.X
+	}
+	asCall := func(v ssa.Value) (*ssa.Call, int, bool) {
+		switch x := v.(type) {
+		case *ssa.Call:
+			return x, -1, true
+		case *ssa.Extract:
+			if c, ok := x.Tuple.(*ssa.Call); ok {
+				return c, x.Index, true
+			}
+		}
+		return nil, 0, false
+	}
+	if bo, isBin := cond.(*ssa.BinOp); isBin && (bo.Op == token.EQL || bo.Op == token.NEQ) {
+		var other ssa.Value
+		if k, isC := bo.Y.(*ssa.Const); isC && k.IsNil() {
+			other = bo.X
+		} else if k, isC := bo.X.(*ssa.Const); isC && k.IsNil() {
+			other = bo.Y
+		}
+		if other == nil {
+			return
+		}
+		c, i, isCall := asCall(other)
+		if !isCall {
+			return
+		}
+		wantT, wantF = "nil", "nonnil"
+		if bo.Op == token.NEQ {
+			wantT, wantF = wantF, wantT
+		}
+		if flip {
+			wantT, wantF = wantF, wantT
+		}
+		return c, i, wantT, wantF, true
+	}
+	c, i, isCall := asCall(cond)
+	if !isCall {
+		return
+	}
+	if b, isBasic := cond.Type().Underlying().(*types.Basic); !isBasic || b.Kind() != types.Bool {
+		return
+	}
+	wantT, wantF = "true", "false"
+	if flip {
+		wantT, wantF = wantF, wantT
+	}
+	return c, i, wantT, wantF, true
+}
+
+// calleeEstablishes: every return of the statically called karpenter function that yields outcome `want` (for result
+// idx) is guarded, inside the callee and in the CALLER's terms (parameters replaced by the call's arguments), by gate g.
+func (w *World) calleeEstablishes(caller *ssa.Function, call *ssa.Call, idx int, want string, g Gate) bool {
+	f := call.Common().StaticCallee()
+	if f == nil || f == caller || len(f.Blocks) == 0 || len(f.Blocks) > 60 || f.Synthetic != "" || !IsKarpenterFn(f) || call.Common().IsInvoke() {
+		return false
+	}
+	args := call.Common().Args
+	if len(args) != len(f.Params) {
+		return false
+	}
+	m := map[*ssa.Parameter]string{}
+	for j, p := range f.Params {
+		m[p] = w.Render(args[j])
+	}
+	w.subst = append(w.subst, m)
+	w.seeDepth++
+	seeThrough++
+	defer func() {
+		w.subst = w.subst[:len(w.subst)-1]
+		w.seeDepth--
+		seeThrough--
+	}()
+	sinks := w.ReturnSinks(f, RetSpec{Index: idx, Want: want})
+	if len(sinks) == 0 {
+		return false
+	}
+	for _, s := range sinks {
+		if !w.RetGuarded(s, g) {
+			return false
+		}
+	}
+	return true
 }
 
 // interestingInstr filters instructions that can be sites (effects), to keep rendering cheap.
@@ -99,27 +334,48 @@ func blockHasCutInstr(b *ssa.BasicBlock, c *Cut, before ssa.Instruction) bool {
 
 // Reach computes blocks whose entry is reachable from the given start blocks without crossing the cut.
 func Reach(starts []*ssa.BasicBlock, c *Cut) map[*ssa.BasicBlock]bool {
+	type state struct{ b, from *ssa.BasicBlock }
 	seen := map[*ssa.BasicBlock]bool{}
-	var stack []*ssa.BasicBlock
+	seenJ := map[state]bool{}
+	var stack []state
 	for _, s := range starts {
 		if !seen[s] {
 			seen[s] = true
-			stack = append(stack, s)
+			stack = append(stack, state{s, nil})
 		}
 	}
 	for len(stack) > 0 {
-		b := stack[len(stack)-1]
+		st := stack[len(stack)-1]
 		stack = stack[:len(stack)-1]
+		b := st.b
 		if c != nil && blockHasCutInstr(b, c, nil) {
 			continue
 		}
-		for i, s := range b.Succs {
-			if c != nil && c.Edges[EdgeKey{b, i}] {
+		var idxs []int
+		if phi := boolJoin(b); phi != nil && st.from != nil {
+			idxs = joinSuccs(b, phi, st.from, c)
+		} else {
+			for i := range b.Succs {
+				if c != nil && c.Edges[EdgeKey{b, i}] {
+					continue
+				}
+				idxs = append(idxs, i)
+			}
+		}
+		for _, i := range idxs {
+			s := b.Succs[i]
+			if boolJoin(s) != nil {
+				// a join is explored once per predecessor
+				if !seenJ[state{s, b}] {
+					seenJ[state{s, b}] = true
+					seen[s] = true
+					stack = append(stack, state{s, b})
+				}
 				continue
 			}
 			if !seen[s] {
 				seen[s] = true
-				stack = append(stack, s)
+				stack = append(stack, state{s, b})
 			}
 		}
 	}
@@ -209,7 +465,7 @@ func (w *World) Sites(fn *ssa.Function, re *regexp.Regexp, deep bool) []ssa.Inst
 				if !interestingInstr(in) {
 					continue
 				}
-				if re.MatchString(w.RenderInstr(in)) {
+				if MatchRe(re, w.RenderInstr(in)) {
 					out = append(out, in)
 				}
 			}
@@ -305,4 +561,202 @@ func (w *World) GuardedByConsistent(in ssa.Instruction, g Gate, stable []*regexp
 		return w.GuardedByConsistent(mc, g, stable)
 	}
 	return false
+}
+
+// ---------------------------------------------------------------------------
+// seeing through extracted helpers for sites
+
+// helperCallee returns the statically called karpenter helper of a call instruction, if it may be looked into.
+func (w *World) helperCallee(caller *ssa.Function, in ssa.Instruction) (*ssa.Function, []ssa.Value, bool) {
+	ci, ok := in.(ssa.CallInstruction)
+	if !ok {
+		return nil, nil, false
+	}
+	c := ci.Common()
+	f := c.StaticCallee()
+	if f == nil || c.IsInvoke() || RootFn(f) == RootFn(caller) || len(f.Blocks) == 0 || len(f.Blocks) > 60 || f.Synthetic != "" || !IsKarpenterFn(f) || IsTestSupport(f) {
+		return nil, nil, false
+	}
+	if len(c.Args) != len(f.Params) {
+		return nil, nil, false
+	}
+	return f, c.Args, true
+}
+
+// calleeContains: the helper called by `in` (in the caller's terms) contains an instruction matching one of res —
+// on some path (must=false) or on every path from its entry to a return (must=true). Looks maxSeeDepth levels deep.
+func (w *World) calleeContains(caller *ssa.Function, in ssa.Instruction, res []*regexp.Regexp, must bool) bool {
+	if w.seeDepth >= maxSeeDepth {
+		return false
+	}
+	f, args, ok := w.helperCallee(caller, in)
+	if !ok {
+		return false
+	}
+	m := map[*ssa.Parameter]string{}
+	for j, p := range f.Params {
+		m[p] = w.Render(args[j])
+	}
+	w.subst = append(w.subst, m)
+	w.seeDepth++
+	seeThrough++
+	defer func() {
+		w.subst = w.subst[:len(w.subst)-1]
+		w.seeDepth--
+		seeThrough--
+	}()
+	cut := newCut()
+	found := false
+	scan := func(g *ssa.Function, record bool) {
+		for _, b := range g.Blocks {
+			for _, x := range b.Instrs {
+				if !interestingInstr(x) {
+					continue
+				}
+				hit := false
+				r := w.RenderInstr(x)
+				for _, re := range res {
+					if MatchRe(re, r) {
+						hit = true
+					}
+				}
+				if !hit && w.calleeContains(g, x, res, must) {
+					hit = true
+				}
+				if hit {
+					found = true
+					if record {
+						cut.Instrs[x] = true
+					}
+				}
+			}
+		}
+	}
+	scan(f, true)
+	if !must {
+		// may-flavour: the helper's own closures count too (retry wrappers, parallel workers)
+		for _, cl := range WithClosures(f)[1:] {
+			scan(cl, false)
+		}
+	}
+	if !found || !must {
+		return found
+	}
+	// every normal return must be cut off
+	for _, b := range f.Blocks {
+		if len(b.Instrs) == 0 {
+			continue
+		}
+		if ret, ok := b.Instrs[len(b.Instrs)-1].(*ssa.Return); ok && InstrReachable(ret, cut) {
+			return false
+		}
+	}
+	return true
+}
+
+// HelperSites: call instructions of fn (closures included when deep) whose helper may execute an instruction matching re.
+// Used only as a fallback when fewer direct sites than confirmed by hand are found: the effect was extracted into a helper.
+func (w *World) HelperSites(fn *ssa.Function, re *regexp.Regexp, deep bool) []ssa.Instruction {
+	var out []ssa.Instruction
+	fns := []*ssa.Function{fn}
+	if deep {
+		fns = WithClosures(fn)
+	}
+	for _, f := range fns {
+		for _, b := range f.Blocks {
+			for _, in := range b.Instrs {
+				callee, _, ok := w.helperCallee(f, in)
+				if !ok || !w.privateTo(callee, fn) {
+					continue
+				}
+				if w.calleeContains(f, in, []*regexp.Regexp{re}, false) {
+					out = append(out, in)
+				}
+			}
+		}
+	}
+	return out
+}
+
+// privateTo: h is an unexported helper all of whose (non-test) callers belong to owner (its closures included) or are
+// themselves such helpers: what h does, it does on owner's behalf. This is what an "extract function" refactoring
+// produces; a shared or exported function is not looked into for may-flavour matches.
+func (w *World) privateTo(h, owner *ssa.Function) bool {
+	return w.privateToDepth(h, RootFn(owner), 0)
+}
+
+func (w *World) privateToDepth(h, owner *ssa.Function, depth int) bool {
+	if depth > 2 || h.Object() == nil || h.Object().Exported() {
+		return false
+	}
+	// an unexported function of the owner's own package (helpers extracted from duplicated code have several callers)
+	if fnPkgPath(h) == fnPkgPath(owner) {
+		return true
+	}
+	n := 0
+	for _, c := range w.CG().CallersOf(h) {
+		if IsTestSupport(c) {
+			continue
+		}
+		root := RootFn(c)
+		if root == h {
+			continue
+		}
+		n++
+		if root == owner {
+			continue
+		}
+		if !w.privateToDepth(root, owner, depth+1) {
+			return false
+		}
+	}
+	return n > 0
+}
+
+// guardedInsideHelper: site is a call to a private helper; every instruction matching re inside the helper (and its
+// closures) is guarded there by g, with the helper's parameters read as the call's arguments.
+func (w *World) guardedInsideHelper(site ssa.Instruction, re *regexp.Regexp, g Gate) bool {
+	caller := site.Parent()
+	f, args, ok := w.helperCallee(caller, site)
+	if !ok || w.seeDepth >= maxSeeDepth || !w.privateTo(f, caller) {
+		return false
+	}
+	m := map[*ssa.Parameter]string{}
+	for j, p := range f.Params {
+		m[p] = w.Render(args[j])
+	}
+	w.subst = append(w.subst, m)
+	w.seeDepth++
+	seeThrough++
+	defer func() {
+		w.subst = w.subst[:len(w.subst)-1]
+		w.seeDepth--
+		seeThrough--
+	}()
+	inner := w.Sites(f, re, true)
+	if len(inner) == 0 {
+		return false
+	}
+	for _, in := range inner {
+		if !w.GuardedBy(in, g) {
+			return false
+		}
+	}
+	return true
+}
+
+// SitesOr: the direct sites, completed by helper call sites when fewer than min direct ones exist.
+func (w *World) SitesOr(fn *ssa.Function, re *regexp.Regexp, deep bool, min int) []ssa.Instruction {
+	sites := w.Sites(fn, re, deep)
+	if len(sites) >= min {
+		return sites
+	}
+	// second reading: trivial extracted helpers (`return <expr>`) rendered as their expression
+	w.inlineTrivial = true
+	inl := w.Sites(fn, re, deep)
+	w.inlineTrivial = false
+	if len(inl) >= min {
+		return inl
+	}
+	return append(sites, w.HelperSites(fn, re, deep)...)
 }
